@@ -1728,3 +1728,134 @@ func ruleAdjustCover(p *Prog, r *Result) {
 	}
 	r.floor("cache maintenance obligations", n, 4)
 }
+
+// ---------------- REGIONSTICKY ----------------
+
+func init() {
+	register("REGIONSTICKY", "typestate of the cursor plans with a region (prefix, range): every way out of the fetch loop other than an error return or a full batch window (end of cursor, key outside the region) sets a Boolean field of the plan; every Cursor.Next of Next and Batch is dominated by the test that this field is false; nothing in Next/Batch sets it back; Init resets it. So a finished scan, polled again (as draining in batches does), reads no further key beyond its region", ruleRegionSticky)
+}
+
+func ruleRegionSticky(p *Prog, r *Result) {
+	plans, _, _ := p.planTypes()
+	n := 0
+	for _, t := range plans {
+		cl := p.planClass(t)
+		if cl != "range" && cl != "prefix" {
+			continue
+		}
+		tn := t.Obj().Name()
+		flagField := ""
+		for _, mn := range []string{"Next", "Batch"} {
+			fn := p.Method(t, mn)
+			if fn == nil {
+				continue
+			}
+			var fetch *ssa.Call
+			for _, s := range p.storage().ByFn[fn] {
+				if s.Method == "Cursor.Next" {
+					fetch, _ = s.Instr.(*ssa.Call)
+				}
+			}
+			if fetch == nil {
+				r.hit(tn+"."+mn+"|fetch", p.Pos(fn.Pos()), "no Cursor.Next fetch found")
+				continue
+			}
+			loops := naturalLoops(fn)
+			var inner *Loop
+			for _, L := range loops {
+				if L.Body[fetch.Block()] && (inner == nil || len(L.Body) < len(inner.Body)) {
+					inner = L
+				}
+			}
+			if inner == nil {
+				r.hit(tn+"."+mn+"|loop", p.Pos(fn.Pos()), "the fetch is not in a loop")
+				continue
+			}
+			// (a) exits set the flag
+			ei := 0
+			for _, b := range orderedBlocks(fn, inner.Body) {
+				for si, s := range b.Succs {
+					if inner.Body[s] || returnsNonNilErrorFrom(s) {
+						continue
+					}
+					if b == inner.Header {
+						// the loop condition itself: either the window is full (more reads are legitimate) or the flag is already set
+						continue
+					}
+					// a row is handed out: not the end of the region
+					if rt := retOf(s); rt != nil && len(rt.Results) > 0 && !isNilConst(retVal(rt, 0)) {
+						continue
+					}
+					n++
+					ei++
+					key := fmt.Sprintf("%s.%s|exit#%d", tn, mn, ei)
+					field := ""
+					// the exit path: s and the blocks it dominates before control merges again
+					for _, x := range fn.Blocks {
+						if x != s && !(s.Dominates(x) && len(x.Preds) == 1) {
+							continue
+						}
+						for _, in := range x.Instrs {
+							if st, ok := in.(*ssa.Store); ok {
+								if o, fl, base, ok := fieldOfAddr(st.Addr); ok && o == t && len(fn.Params) > 0 && base == ssa.Value(fn.Params[0]) {
+									if bv, isB := constBool(st.Val); isB && bv {
+										field = fl
+									}
+								}
+							}
+						}
+					}
+					_ = si
+					if field != "" {
+						if flagField != "" && flagField != field {
+							field = ""
+						} else {
+							flagField = field
+						}
+					}
+					r.add(field != "", key, p.InstrPos(b.Instrs[len(b.Instrs)-1]), "leaving the region (or the end of the cursor) is recorded in a field of the plan, so that a later call does not read on")
+				}
+			}
+			// (b) the fetch is guarded by the flag
+			n++
+			guarded := false
+			for _, a := range dominatingAtoms(fetch.Block()) {
+				if bv, isB := constBool(a.Y); isB && flagField != "" && isFieldLoad(a.X, tn, flagField) {
+					if (a.Op == token.EQL && !bv) || (a.Op == token.NEQ && bv) {
+						guarded = true
+					}
+				}
+			}
+			r.add(guarded, fmt.Sprintf("%s.%s|guard", tn, mn), p.InstrPos(fetch), "every Cursor.Next is dominated by the test that the scan has not left its region yet")
+			// (c) never set back here
+			n++
+			reset := ""
+			allInstrs(fn, func(in ssa.Instruction) {
+				if st, ok := in.(*ssa.Store); ok {
+					if o, fl, _, ok := fieldOfAddr(st.Addr); ok && o == t && fl == flagField {
+						if bv, isB := constBool(st.Val); !isB || !bv {
+							reset = p.InstrPos(st)
+						}
+					}
+				}
+			})
+			r.add(reset == "", fmt.Sprintf("%s.%s|no-reset", tn, mn), p.Pos(fn.Pos()), firstNonEmpty(map[bool]string{true: "the region flag is set back at " + reset}[reset != ""], "the region flag is only ever set"))
+		}
+		// Init resets
+		if init := p.Method(t, "Init"); init != nil && flagField != "" {
+			n++
+			resets := false
+			allInstrs(init, func(in ssa.Instruction) {
+				if st, ok := in.(*ssa.Store); ok {
+					if o, fl, _, ok := fieldOfAddr(st.Addr); ok && o == t && fl == flagField {
+						if bv, isB := constBool(st.Val); isB && !bv {
+							resets = true
+						}
+					}
+				}
+			})
+			r.add(resets, tn+".Init|reset", p.Pos(init.Pos()), "Init clears the region flag (a re-initialised plan scans again)")
+		}
+	}
+	r.floor("region typestate obligations", n, 12)
+}
